@@ -1156,14 +1156,31 @@ func (cm *codecModel) checkReadPacketSlicing(r *Report, rule string) {
 	r.fn(f)
 	var unpackCall *ssa.Call
 	var bodySlice *ssa.Slice
-	allInstrs(f, func(i ssa.Instruction) {
-		if call, ok := i.(*ssa.Call); ok && calleeName(&call.Call) == "(*"+pkPackets+".Header).Unpack" {
-			unpackCall = call
+	find := func(g *ssa.Function) {
+		unpackCall, bodySlice = nil, nil
+		allInstrs(g, func(i ssa.Instruction) {
+			if call, ok := i.(*ssa.Call); ok && calleeName(&call.Call) == "(*"+pkPackets+".Header).Unpack" {
+				unpackCall = call
+			}
+			if sl, ok := i.(*ssa.Slice); ok && sl.Low != nil && sl.High == nil {
+				bodySlice = sl
+			}
+		})
+	}
+	find(f)
+	if unpackCall == nil {
+		// the decoding half in a helper of the package that is handed the bytes read
+		for _, g := range staticCalleesOf(f) {
+			if fnPkgPath(g) == pkPackets1 && g.Blocks != nil {
+				find(g)
+				if unpackCall != nil {
+					r.fn(g)
+					f = g
+					break
+				}
+			}
 		}
-		if sl, ok := i.(*ssa.Slice); ok && sl.Low != nil && sl.High == nil {
-			bodySlice = sl
-		}
-	})
+	}
 	key := "ReadPacket:body-slice"
 	if unpackCall == nil || bodySlice == nil {
 		r.undecided(rule, key, c.pos(f.Pos()), "ReadPacket does not call Header.Unpack and slice the rest")
